@@ -36,7 +36,7 @@ ASSUMPTIONS = [
     "the key is the name, not the arguments (documented): different arguments under one key replay the first output",
 ]
 BOUNDS = {
-    "quick": {"programs": "all single and pair placements x key forms x flags", "history": "depth 6 (fixpoint where smaller)", "backends": "recording dict, beaker memory"},
+    "quick": {"programs": "all single and pair placements x key forms x flags", "history": "depth 8 (fixpoint where smaller)", "backends": "recording dict, beaker memory"},
     "thorough": {"programs": "all 31 placements x key forms x flags x cache_* placements", "history": "fixpoint", "backends": "recording dict (pass_context on/off), beaker memory, beaker file, dogpile memory"},
 }
 READY = True
@@ -496,7 +496,7 @@ def configs(tier):
                 continue
             if tier == "quick" and be != "rec" and (len(prog["cached"]) > 1 or prog["flags"]):
                 continue
-            cfgs.append({"prog": prog, "backend": be, "max_depth": 30 if tier != "quick" else 6})
+            cfgs.append({"prog": prog, "backend": be, "max_depth": 30 if tier != "quick" else 8})
             if be == "rec" and prog["args"] != "none":
                 cfgs.append({"prog": prog, "backend": be, "pass_context": True, "max_depth": 30})
     # several templates sharing one backend; URIs that differ only in punctuation
